@@ -4,6 +4,7 @@ from __future__ import annotations
 import random
 
 from .. import models, pdugen, wire
+from ..msgs import request_extras
 from ..oracles import C01Monitor, trace_summary
 from ..world import InternalError, Plan, RandomPlan, Runner, World
 
@@ -62,6 +63,7 @@ def gen_cases(tier, seed):
         cfg["scribble_pdus"] = rng.random() < 0.2  # ... and one which edits every PDU object after it has taken its bytes
         if rng.random() < 0.15:
             case["drift"] = [rng.randrange(1 << 30), rng.choice([300, 1500])]  # slow entities: time passes before every call
+        cfg.update(request_extras(rng, 0.15))  # options and (binary) messages to user in the put request
         cfg["scribble_user"] = rng.random() < 0.2  # a user which overwrites the attributes of the parameter objects its callbacks receive
         if rng.random() < 0.25:
             # the receiver's own default checksum type for this sender differs from the one the Metadata PDU announces (which decides)
